@@ -187,6 +187,7 @@ def run(ctx):
             lambda: loops.fanout_join_loop(4 * N, N % 2, "empty"),
             lambda: loops.early_read_signal_loop(N, 0, "route"),
             lambda: loops.early_read_signal_loop(N + 1, 1, "ifelse"),
+            lambda: loops.fanout_join_pair_loop(5 * N, N % 2),
             lambda: loops.fanout_join_loop(4 * N, 0, "empty", True),
         ):
             if ctx.shard[0] != sysn % ctx.shard[1]:
